@@ -793,7 +793,9 @@ Ltac brk := repeat (simpl; match goal with |- context [match ?x with _ => _ end]
 Lemma step_v_refusal : forall h v o, plain_request (h, v, d0) o = true ->
   is_refusal (snd (step_v h v o)) -> fst (step_v h v o) = (h, v).
 Proof.
-  intros h v o Hp. destruct o; simpl in Hp; try discriminate; try (brk; fin).
+  intros h v o Hp. destruct o; simpl in Hp; try discriminate;
+    try (brk; first [fin | (let Hr := fresh in simpl; intro Hr; exfalso; unfold s_attr2 in Hr;
+                            match type of Hr with context [if ?c then _ else _] => destruct c end; exact Hr)]).
   (* vgadd of a single member: either accepted or nothing changes *)
   simpl. apply Z.eqb_eq in Hp. subst n.
   destruct (get_vg v v0) as [[i g]|]; [|fin].
@@ -904,4 +906,22 @@ Proof.
     + intro H1; inversion H1; subst.
       split; [reflexivity|]. split; [intros; reflexivity|]. split; [rewrite Ef; reflexivity|].
       intros Hk; split; [exact Hk | lia].
+Qed.
+
+(* ------------------------------------------------------------------ attributes (one Vdata field each) *)
+Lemma setattr_lemma : forall sz count, is_int32 count -> 0 < sz <= 8 ->
+  m_sdsetattr sz count = s_setattr sz count /\ m_grsetattr sz count = s_setattr sz count.
+Proof.
+  intros sz count Hc Hs. unfold is_int32 in Hc.
+  unfold m_sdsetattr, m_grsetattr, s_setattr, truth, sdsetattr_no_values, sdsetattr_too_big, grsetattr_too_big,
+         MAX_ORDER, MAX_FIELD_SIZE.
+  destruct (Z.leb_spec count 0) as [Hle|Hgt]; simpl.
+  - destruct (Z.leb_spec 1 count); [lia|]. simpl. destruct (Z.ltb_spec 0 count); [lia|].
+    rewrite andb_false_r. split; reflexivity.
+  - destruct (Z.leb_spec 1 count); [|lia]. destruct (Z.ltb_spec 0 count); [|lia]. simpl.
+    destruct (Z.ltb_spec 65535 count) as [Hbig|Hsmall]; simpl.
+    + destruct (Z.leb_spec count 65535); [lia|]. simpl. split; reflexivity.
+    + destruct (Z.leb_spec count 65535); [|lia]. simpl.
+      rewrite (mul32_id count sz) by (unfold is_int32; nia).
+      destruct (Z.ltb_spec 65535 (count * sz)); simpl; destruct (Z.leb_spec (count * sz) 65535); try lia; split; reflexivity.
 Qed.
